@@ -35,6 +35,8 @@ IdMatch(u, v, mapped, lenient) ==
     ELSE IF mapped THEN rid[v] = rid[u] \/ (rid[v] = "a" /\ rid[u] = "ax")   \* prefix
     ELSE rid[v] = rid[u]
 
+\* An edge of kind "fileempty" is a file-type definition whose feature list is
+\* explicitly empty: it offers nothing (it never appears in Step).
 \* states of the traversal: <<node, reached through the network?>>
 Step(S, len) ==
     S \cup {<<v, TRUE>> : v \in {w \in Nodes : \E s \in S :
